@@ -1,6 +1,7 @@
 import SmsVerif.Driver.C20
 import SmsVerif.Driver.Layout
 import SmsVerif.Driver.Meta
+import SmsVerif.Driver.Auth
 open SmsVerif SmsVerif.Driver
 
 def dispatch (line : String) : String :=
@@ -11,6 +12,7 @@ def dispatch (line : String) : String :=
   | "dec" :: toks => (handleDec toks).getD "bad-op"
   | "decalloc" :: toks => (handleDecAlloc toks).getD "bad-op"
   | ["pdus"] => handlePdus
+  | "authin" :: toks => (handleAuthIn toks).getD "bad-op"
   | "meta" :: toks => (handleMeta toks).getD "bad-op"
   | "dispatch" :: toks => (handleDispatch toks).getD "bad-op"
   | _ => "bad-op"
